@@ -25,7 +25,7 @@ CHECKS = {
                 text="TLC checks the key-table contract exhaustively over a 9-entry universe incl. the copy/swap/notify-diff protocol; the real table is bound by replaying TLC-generated histories with a full lookup sweep after every step and by seeded histories whose sizes walk across the linear-hash resize steps with AS numbers colliding in the hash, every lookup result (as a bag) and every callback bag recomputed by TLC.",
                 note="bounded constants on the model side; finite seeded samples on the code side; NDEBUG+ASan build; trusts TLC and the harness's logging"),
     "C03": dict(engine="fsm", cat="model_checking", ref="5/C03",
-                technique='TLC on MCRtrSocket (envelope of rtr.c/packets.c at seam granularity) + trace validation of the real FSM thread against RtrSocketTrace.tla, monitor OK_C03',
+                technique='TLC on MCRtrSocket (envelope of rtr.c/packets.c at seam granularity) + trace validation of the real FSM thread against RtrSocketTrace.tla, monitor OK_C03; implementation runs are driven by a TLC transition tour of the model (MCRtrSocketCover), thousands of TLC-simulated behaviours and seeded conversations',
                 text="The envelope's End-of-Data action has exactly three outcomes (applied in order / untouched / purged+reset) and TLC checks the ghost properties over every conversation of the small alphabet; the real rtr_fsm_start thread is run against a scripted cache (offending PDU at every position, repeated records, transport faults at every frame, mid-frame cuts, stops mid-apply) and TLC recomputes, from the logged frames, this socket's records at every observation point (reconnect, next query, sleep, stop), the other source's records and the next query.",
                 note="small alphabets on the model side (cfg header); finite seeded conversations on the code side; the simulated cache closes the connection after an Error Report; NDEBUG+ASan build, virtual clock via --wrap; trusts TLC and the harness's PDU codec/logging"),
     "C05": dict(engine="fsm", cat="model_checking", ref="5/C05",
@@ -37,7 +37,7 @@ CHECKS = {
                 text='The specification purges by its own ghost time of the last successful synchronisation, so a timestamp the implementation loses (failed reload) is caught; table contents at each open(), the type of the first query after an expiry and contents after rtr_stop are checked by TLC on traces with long outages (virtual clock), reloads interrupted at every frame, all interval settings and modes.',
                 note="small alphabets on the model side (cfg header); finite seeded conversations on the code side; the simulated cache closes the connection after an Error Report; NDEBUG+ASan build, virtual clock via --wrap; trusts TLC and the harness's PDU codec/logging"),
     "C08": dict(engine="fsm", cat="model_checking", ref="5/C08",
-                technique='progress monitors of RtrSocketTrace.tla (sleep discipline, time bound after the cache turns good, ESTABLISHED only after a completed sync) + harness watchdog for zero-time loops',
+                technique='TLC on MCRtrSocketConv (adversarial prefix, then a correct cache for ever: ESTABLISHED with the cache data within K client steps and within the wall-clock bound) + progress monitors of RtrSocketTrace.tla on traces of the real client (sleep discipline, time bound after the cache turns good, ESTABLISHED only after a completed sync) + harness watchdog for zero-time loops',
                 text='After a seeded run of faults the scripted cache answers correctly (mark event with the target data set); TLC checks on the trace that the client reaches ESTABLISHED with exactly that data within refresh+expire+4*retry+240 s of virtual time, that every error path sleeps the retry interval, and the harness reports a hang when 5000 seam calls pass without time or input advancing.',
                 note="small alphabets on the model side (cfg header); finite seeded conversations on the code side; the simulated cache closes the connection after an Error Report; NDEBUG+ASan build, virtual clock via --wrap; trusts TLC and the harness's PDU codec/logging"),
     "C13": dict(engine="fsm", cat="model_checking", ref="5/C13",
@@ -69,9 +69,9 @@ CHECKS = {
                 text="For every integer in -3..40 (quick) / -300..1000 (thorough) TLC decides from the header-derived enumerator lists what rtr_state_to_str / rtr_mgr_status_to_str must return (the enumerator's name, or NULL); the real functions are called in an ASan build where the name tables have red zones.",
                 note="finite range enumerated completely; enumerators assumed consecutive from 0 (checked by the generator)"),
     "C18": dict(engine="alloc", cat="fault_enumeration", ref="5/C18",
-                technique="k-th-allocation failure enumeration through lrtr_set_alloc_functions with a tagged-header allocator; every run's trace validated against the table trace specs whose failing variants (OpFails: error, nothing changed, no callback) are admissible only in the call where the failure was injected; whole synchronisations validated for containment by RtrSocketTrace.tla (OK_C18)",
-                text="For each table history a counting run checks that nothing stays allocated and no block reaches the wrong allocator; then every allocation k is failed once in a fresh process. TLC accepts a run only if the operation that saw the failure either reported an error with no effect at all or succeeded, and all later operations behave per contract (set semantics intact). A process that dies is an observation identified by the rtrlib/tommyds function whose allocation was failed. The same enumeration over conversations with full loads, deltas and atomic reloads checks no crash/hang, other sources' records untouched, callbacks consistent.",
-                note="single failures per run; private reload helpers excluded from the table histories; synchronisations checked for containment, not all-or-nothing; one open known finding (tommy_hashlin_init)"),
+                technique="k-th-allocation failure enumeration through lrtr_set_alloc_functions with a tagged-header allocator; every run's trace validated against the table trace specs whose failing variants (OpFails: error, nothing changed, no callback) are admissible only in the call where the failure was injected; whole synchronisations (incl. responses that fail and are rolled back) validated by RtrSocketTrace.tla (OK_C18): no crash/hang, callbacks consistent, other sources untouched, and the exchange hit by the failure ends as predicted, as before it, or purged with a Reset Query due",
+                text="For each table history a counting run checks that nothing stays allocated and no block reaches the wrong allocator; then every allocation k is failed once in a fresh process. TLC accepts a run only if the operation that saw the failure either reported an error with no effect at all or succeeded, and all later operations behave per contract (set semantics intact). A process that dies is an observation identified by the rtrlib/tommyds function whose allocation was failed. The same enumeration over conversations with full loads, deltas, atomic reloads and failing responses of every family (roll-backs under allocation failure) checks no crash/hang, other sources' records untouched, callbacks consistent, and that the next query together with the table contents matches one of the three admissible outcomes.",
+                note="single failures per run; private reload helpers excluded from the table histories; one open known finding (tommy_hashlin_init)"),
     "C16": dict(engine="conc", cat="model_checking", ref="5/C16",
                 technique="TLC on TableConc.tla (RaceFree, Linearizable, NoTornRead over every interleaving of lock calls and accesses) + trace validation of reads by concurrent threads against versions replayed on the table contracts (ConcTrace.tla) + ThreadSanitizer build",
                 text="A writer thread runs a seeded history on both tables and publishes an operation counter around every call; readers validate, look up keys and enumerate, logging the counter at call and return; TLC replays the writer's history on PfxTable/SpkiTable semantics (RFC 6811 oracle) and accepts a read iff some version inside its interval gives that answer. The same workload in a TSan build: any data-race report on rtrlib/tommyds frames is a violation; ASan turns use-after-free by a reader into a crash.",
